@@ -260,6 +260,8 @@ class Sectionable(BaseObject):
             if section.name in self._sections:
                 raise ValueError("Section with name '%s' already exists." % section.name)
 
+            if section._parent is not None and section._parent is not self:
+                section._parent.remove(section)
             self._sections.insert(position, section)
             section._parent = self
         else:
@@ -274,6 +276,8 @@ class Sectionable(BaseObject):
         from odml.section import BaseSection
         if isinstance(section, BaseSection):
             self._sections.append(section)
+            if section._parent is not None and section._parent is not self:
+                section._parent.remove(section)
             section._parent = self
         elif isinstance(section, Iterable) and not isinstance(section, str):
             raise ValueError("Use extend to add a list of Sections.")
